@@ -66,7 +66,7 @@ fn verif_witness_search_errors() {
 #[test]
 fn verif_witness_search_single_fault_mutants() {
   let base = SINGLE_FAULT_BASE;
-  let mutants: [(&str, &str, &str); 59] = [
+  let mutants: [(&str, &str, &str); 65] = [
     // operands and arguments of the wrong type
     ("operand of + is a bool", "let a = Main.add(1, 2);", "let a = Main.add(1, 2) + true;"),
     ("operand of ! is an int", "!e.isNone()", "!3"),
@@ -126,6 +126,12 @@ fn verif_witness_search_single_fault_mutants() {
     ("missing interface member", "method area(): int = this.side * this.side\n", "\n"),
     ("mistyped interface member", "method area(): int = this.side * this.side", "method area(): bool = true"),
     ("violated type-parameter bound", "Cmp.max(Sq.init(2), Sq.init(3))", "Cmp.max(Opt.Some(2), Opt.Some(3))"),
+    ("violated type-parameter bound, type arguments solved from the expected function type", "let g: (Sq, Sq) -> Sq = Cmp.max;", "let g: (Sq, Sq) -> Sq = Cmp.max; let g2: (Opt<int>, Opt<int>) -> Opt<int> = Cmp.max;"),
+    ("class objects passed where instances are expected", "Cmp.max(Sq.init(2), Sq.init(3))", "Cmp.max(Sq, Sq)"),
+    ("class objects passed where instances that satisfy a bound are expected", "Cmp.order(Sq.init(7), Sq.init(8))", "Cmp.order(Sq, Sq)"),
+    ("interface member inherited at two instantiations, implemented at one", "class Range(val lo", "class Gauge(val v: int) : Counter, Meter { method get(): int = this.v }\nclass Range(val lo"),
+    ("unresolved class in a second import line from the same module", "import { Triple } from std.tuples", "import { Triple } from std.tuples\nimport { Missing } from std.tuples"),
+    ("match over an object pattern with fields out of order, one case missing", ", { hi as Some(b), lo as None } -> b }", " }"),
     // matches that do not cover every case
     ("match without the None case", "None -> 0, Some(s) -> s.area()", "Some(s) -> s.area()"),
     ("match over an object pattern without the None case of its first field", ", { tag as None, weight } -> weight", ""),
@@ -174,8 +180,14 @@ fn verif_witness_search_single_fault_mutants() {
   println!("WITNESS-SEARCH: no violating history found ({} single-fault mutants of an accepted program)", mutants.len());
 }
 
-const SINGLE_FAULT_BASE: &str = r#"interface Shape { method area(): int }
+const SINGLE_FAULT_BASE: &str = r#"import { Triple } from std.tuples
+interface Shape { method area(): int }
 interface Comparable<T> { method compare(other: T): int }
+interface Source<T> { method get(): T }
+interface Counter : Source<int> {}
+interface Meter : Source<Str> {}
+class Dial(val v: int) : Counter { method get(): int = this.v }
+class Range(val lo: Opt<int>, val hi: Opt<int>) {}
 class Opt<T>(None, Some(T)) {
   method isNone(): bool = match (this) { None -> true, Some(_) -> false }
   method <R> map(f: (T) -> R): Opt<R> = match (this) { None -> Opt.None<R>(), Some(v) -> Opt.Some(f(v)) }
@@ -187,7 +199,10 @@ class Sq(val side: int) : Shape, Comparable<Sq> {
   method area(): int = this.side * this.side
   method compare(other: Sq): int = this.side - other.side
 }
-class Cmp { function <C: Comparable<C>> max(a: C, b: C): C = if a.compare(b) < 0 { b } else { a } }
+class Cmp {
+  function <C: Comparable<C>> max(a: C, b: C): C = if a.compare(b) < 0 { b } else { a }
+  function <C: Comparable<C>> order(p: C, q: C): int = p.compare(q)
+}
 class Item(val tag: Opt<int>, val weight: int) {}
 class Main {
   function add(a: int, b: int): int = a + b
@@ -198,7 +213,11 @@ class Main {
   function size(o: Opt<Sq>): int = match (o) { None -> 0, Some(s) -> s.area() }
   function both(p: Pair<Opt<int>, bool>): int = match (p) { { first as Some(n), second } -> n, { first as None, second } -> 0 }
   function apply(f: (int, int) -> int): int = f(1, 2)
+  function bound(r: Range): int = match (r) { { lo as Some(a), hi as _ } -> a, { hi as None, lo as _ } -> 0, { hi as Some(b), lo as None } -> b }
   function main(): unit = {
+    let ordered = Cmp.order(Sq.init(7), Sq.init(8));
+    let g: (Sq, Sq) -> Sq = Cmp.max;
+    let t3 = Triple.init(1, Dial.init(2).get(), Main.bound(Range.init(Opt.Some(1), Opt.Some(3)))).e0 + g(Sq.init(5), Sq.init(6)).side;
     let a = Main.add(1, 2);
     let o = Opt.Some(a).map((x) -> x + 1);
     let e = Opt.None<int>();
@@ -207,7 +226,7 @@ class Main {
     let (x, y) = (1, 2);
     let big = Cmp.max(Sq.init(2), Sq.init(3));
     let f: (int, int) -> int = Main.add;
-    let s = "n=" :: Str.fromInt(Main.first(a, x) + Main.sign(y) + Main.total(Item.init(e, 3)) + Main.both(p) + Main.apply(f));
+    let s = "n=" :: Str.fromInt(Main.first(a, x) + t3 + ordered + Main.sign(y) + Main.total(Item.init(e, 3)) + Main.both(p) + Main.apply(f));
     let _ = Process.println(if o.isNone() && !e.isNone() || n.isNone() { s } else { Str.fromInt(Main.size(Opt.Some(big)) + Main.weigh(Item.init(o, 4))) });
   }
 }"#;
@@ -522,7 +541,9 @@ fn wat_bytes(s: &str) -> Vec<u8> {
       out.push(u8::from_str_radix(&cs[i + 1..i + 3].iter().collect::<String>(), 16).unwrap_or(b'?'));
       i += 3;
     } else {
-      out.push(cs[i] as u8);
+      // a character written as itself stands for its UTF-8 encoding (WebAssembly text format, string literals)
+      let mut buffer = [0u8; 4];
+      out.extend_from_slice(cs[i].encode_utf8(&mut buffer).as_bytes());
       i += 1;
     }
   }
